@@ -40,6 +40,9 @@ type Network struct {
 	DefaultCap int
 	// SourceIP is the local IP given to the next dialled or auto-bound socket.
 	SourceIP string
+	// SourcePort, if non-zero, is the local port of the next dialled or auto-bound socket (one shot): a
+	// client that reuses its source port, or many clients seen through one resolver.
+	SourcePort int
 	// Log receives one line per network-level happening (optional).
 	Log func(format string, args ...interface{})
 
@@ -208,6 +211,11 @@ func wildcardKey(key string) string {
 }
 
 func (n *Network) ephemeral(network string) net.Addr {
+	if n.SourcePort != 0 && (strings.HasPrefix(network, "udp") || strings.HasPrefix(network, "tcp")) {
+		p := n.SourcePort
+		n.SourcePort = 0
+		return mkAddr(network, n.SourceIP, p)
+	}
 	n.nextPort++
 	if isInet(network) {
 		return mkAddr(network, n.SourceIP, n.nextPort)
